@@ -178,6 +178,7 @@ def run(F, chk):
                 if t in show(src):
                     scattered[t] = (show(tgt["base"]), xshow(tgt["idx"]), n)
     moved = {}
+    moved_node = {}
     for n in walk(body):
         tgt = src = None
         if n["k"] == "Assign" and n["op"] == "=":
@@ -187,6 +188,21 @@ def run(F, chk):
         m, whole = pairing.member_root(tgt, HDR) if is_node(tgt) else (None, False)
         if m in ("blocks", "blockTypeIndices", "blockSizes") and whole and is_node(tgt) and tgt["k"] != "Subscript":
             moved[m] = show(src)
+            moved_node[m] = n
+    # the block list and the type index table exist in every version: their permutation must not depend on the version
+    for t in ("blocks", "blockTypeIndices"):
+        nodes_ = [x for x in (scattered.get(t, (None, None, None))[2], moved_node.get(t)) if x is not None]
+        if not nodes_:
+            continue
+        sigs = pairing.guard_sig(F, sbo, nodes_)
+        gated_by = sorted(k for x in nodes_ for k, p_ in sigs.get(id(x), ()) if not k.startswith("V{") and any(w in k or w in xnames.get(k, "") for w in ("File()", "Stream()", "User()")))
+        ok = not gated_by
+        chk.instance(R3, ok=ok, sample={"table": t, "version_gate": gated_by})
+        if not ok:
+            chk.violation("R4.3", "C04/R4.3:SetBlockOrder:%s-gate" % t, where(sbo, nodes_[0]),
+                          "SetBlockOrder permutes `%s` only under the version condition %s, but the table exists in every version: for "
+                          "the other versions a sort moves the blocks and leaves the table behind, so it describes other blocks than "
+                          "the block list holds" % (t, gated_by))
     for t in ("blocks", "blockTypeIndices", "blockSizes"):
         ok = t in scattered and t in moved and scattered[t][0] in moved[t]
         chk.instance(R3, ok=ok, sample={"table": t, "scatter": scattered.get(t, (None, None))[:2], "installed_from": moved.get(t)})
@@ -393,6 +409,13 @@ def run(F, chk):
                               "order handed to SetBlockOrder is not a permutation of the block list (positions past its end, slots "
                               "left empty)" % (fn["name"], show(n)))
     chk.floor(R8, 3)
+
+    # ------------------------------------------------------------------ R4.9
+    chk.share(F, "c03", ["R3.1", "R3.2", "R3.3"], "R4.9",
+              "the default save may only sort and prune a model all of whose blocks it understands: the hasUnknown flag is set where "
+              "an opaque block is created, survives copying, and guards every path to a reorder / bulk prune — references hidden in "
+              "opaque payloads are invisible to the sort, so a copy that lost the flag loses the blocks only they reference")
+    chk.floor("R4.9", 20)
 
     # ------------------------------------------------------------------ R4.7
     chk.share(F, "c15", ["R15.3"], "R4.7",
